@@ -5,6 +5,7 @@
    "../x" entry, stat/delete -> raises); any number of faults, anywhere. *)
 From Coq Require Import ZArith String Ascii List Bool.
 Require Import DS.Model.PyStr DS.Gen.GenNorm DS.Model.GC DS.Proofs.GCNormProofs DS.Proofs.GCProofs DS.Proofs.GCFaultProofs.
+Require Import DS.Model.GCPointer DS.Proofs.GCPointerProofs.
 Import ListNotations.
 Open Scope string_scope.
 Open Scope Z_scope.
@@ -58,6 +59,22 @@ Theorem C07_partial_decode : forall (tp : string) (grace now timeout : Z) (o : o
   /\ aborted_before_sweep (gc_run tp grace now timeout o snaps st) /\ r_deleted (gc_run tp grace now timeout o snaps st) = [].
 Proof. exact partial_decode_aborts. Qed.
 Print Assumptions C07_partial_decode.
+
+(* The pointer plane.  Storage may hold metadata versions that were never published (a writer died between writing v(N+1) and
+   flipping the pointer).  With the pointer published at p: whatever the first resolution (refresh) was told -- the pointer
+   looking missing or garbled, the hinted file reported missing, so that the scan picks the highest version on storage -- a
+   collection whose second, independent read of the pointer is answered (truthfully) never works from another version than p;
+   and a pointer read that raises aborts. *)
+Theorem C07_pointer_consistent : forall (vs : list nat) (p : nat) (a1 : pans) (x1 : nat -> pex) (a2 : pans) (x2 : nat -> pex) (u : nat),
+  honest p a1 -> honest p a2 -> a2 <> PNone ->
+  collect_resolve vs a1 x1 a2 x2 = RUse u -> u = p.
+Proof. exact pointer_consistent. Qed.
+Print Assumptions C07_pointer_consistent.
+
+Theorem C07_pointer_raise_aborts : forall (vs : list nat) (a1 : pans) (x1 : nat -> pex) (a2 : pans) (x2 : nat -> pex),
+  a1 = PRaise \/ (a2 = PRaise /\ exists u, refresh_resolve vs a1 x1 = RUse u) -> collect_resolve vs a1 x1 a2 x2 = RAbort.
+Proof. exact pointer_raise_aborts. Qed.
+Print Assumptions C07_pointer_raise_aborts.
 
 (* A marker whose stat or delete fails -- more generally ANY marker that is still present after the run -- kept
    everything it denotes (its payload path, or when the payload is unusable every path its name can denote) out of the
@@ -120,3 +137,16 @@ Proof.
     repeat split; simpl; auto; eexists; split; reflexivity.
   - split; vm_compute; tauto.
 Qed.
+
+(* Non-vacuity of the pointer theorems, and what they exclude: versions 3 (published) and 4 (a dead writer's leftover) on
+   storage.  One wrong answer at the first resolution is caught by the second (abort); a raising read aborts; only a pointer
+   that looks absent BOTH times (for the library: a lost pointer) makes the scan result the table. *)
+Definition all_there (_ : nat) : pex := XTrue.
+Example C07_pointer_nonvacuous :
+  collect_resolve [3; 4]%nat (PSome 3%nat) all_there (PSome 3%nat) all_there = RUse 3%nat
+  /\ collect_resolve [3; 4]%nat PNone all_there (PSome 3%nat) all_there = RAbort
+  /\ collect_resolve [3; 4]%nat (PSome 3%nat) (fun _ => XFalse) (PSome 3%nat) all_there = RAbort
+  /\ collect_resolve [3; 4]%nat PRaise all_there (PSome 3%nat) all_there = RAbort
+  /\ collect_resolve [3; 4]%nat PNone all_there PRaise all_there = RAbort
+  /\ collect_resolve [3; 4]%nat PNone all_there PNone all_there = RUse 4%nat.
+Proof. repeat split; reflexivity. Qed.
